@@ -156,6 +156,9 @@ def check(ctx, floors=True, only_literals=False):
     # C09.3b the root module ident: every generated reference is `<root>::<all path segments>` (unconditionally)
     with ctx.only(lambda k: k.startswith("generated-path/")):
         G.generated_path(ctx, "C09.3")
+    # .. and the root module itself, and every `use super::<root>` of the nested modules, is that ident as configured (not re-made from its text)
+    with ctx.only(lambda k: k in ("define/root-module", "define/submodule-chain")):
+        G.definition_predicate(ctx, "C09.3")
     # C09.5 docs
     df = q.fn1(P, "TypeGenerator::<'a>::docs_from_scale_info", "scale_typegen")
     if df is None:
